@@ -19,10 +19,14 @@ import (
 // replays the history in (query, row, item) order.
 
 type c20Item struct {
-	Kind  string `json:"kind"` // col | set | get | async | spin
-	Key   string `json:"key,omitempty"`
-	Alias string `json:"alias,omitempty"`
-	Col   string `json:"col,omitempty"`
+	Kind    string `json:"kind"`              // col | set | get | async | spin | getsub | setv_async | case_set | if_get
+	KeySQL  string `json:"key_sql,omitempty"` // how the key is written in SQL (quoted string, number, expression)
+	Key2    string `json:"key2,omitempty"`
+	Key2SQL string `json:"key2_sql,omitempty"`
+	CaseK   int    `json:"case_k,omitempty"`
+	Key     string `json:"key,omitempty"`
+	Alias   string `json:"alias,omitempty"`
+	Col     string `json:"col,omitempty"`
 	// set: value expression
 	VKind string  `json:"vkind,omitempty"` // col | num | str | null | sum | getvar
 	VCol  string  `json:"vcol,omitempty"`
@@ -46,18 +50,30 @@ type c20Expect struct {
 	Init    map[string]any   `json:"init"`
 }
 
+func (it c20Item) ksql() string {
+	if it.KeySQL != "" {
+		return it.KeySQL
+	}
+	return "'" + it.Key + "'"
+}
+
 func (it c20Item) sql() string {
 	switch it.Kind {
+	case "case_set":
+		// only the arm that is taken may write
+		return fmt.Sprintf("CASE WHEN a >= %d THEN SETVAR(%s, a) ELSE SETVAR(%s, id) END", it.CaseK, it.ksql(), it.k2sql())
+	case "if_get":
+		return fmt.Sprintf("IF(a >= %d, GETVAR(%s), GETVAR(%s)) AS %s", it.CaseK, it.ksql(), it.k2sql(), it.Alias)
 	case "col":
 		return it.Col
 	case "get":
-		return fmt.Sprintf("GETVAR('%s') AS %s", it.Key, it.Alias)
+		return fmt.Sprintf("GETVAR(%s) AS %s", it.ksql(), it.Alias)
 	case "async":
 		return fmt.Sprintf("ASYNC.fx(%d, a) AS %s", it.Site, it.Alias)
 	case "spin":
 		return fmt.Sprintf("SPINASYNC.fx(%d, a)", it.Site)
 	case "getsub":
-		return fmt.Sprintf("(SELECT GETVAR('%s') AS g FROM dual) AS %s", it.Key, it.Alias)
+		return fmt.Sprintf("(SELECT GETVAR(%s) AS g FROM dual) AS %s", it.ksql(), it.Alias)
 	case "setv_async":
 		return fmt.Sprintf("ASYNC.setv(%d, 'zz', id) AS %s", it.Site, it.Alias)
 	case "set":
@@ -78,9 +94,30 @@ func (it c20Item) sql() string {
 		case "bool":
 			v = map[bool]string{true: "TRUE", false: "FALSE"}[it.VNum == 1]
 		}
-		return fmt.Sprintf("SETVAR('%s', %s)", it.Key, v)
+		return fmt.Sprintf("SETVAR(%s, %s)", it.ksql(), v)
 	}
 	return "1"
+}
+
+func (it c20Item) k2sql() string {
+	if it.Key2SQL != "" {
+		return it.Key2SQL
+	}
+	return "'" + it.Key2 + "'"
+}
+
+// c20Keys: registers are named by the printed value of the key expression; a quoted
+// string and a number that print alike name the same register, 1.5 and 2 do not.
+type c20Key struct{ name, sql string }
+
+var c20KeyForms = [][]c20Key{
+	{{"k1", "'k1'"}},
+	{{"k2", "'k2'"}},
+	{{"k3", "'k3'"}},
+	{{"1", "1"}, {"1", "'1'"}},
+	{{"2", "2"}, {"2", "'2'"}, {"2", "1 + 1"}},
+	{{"1.5", "1.5"}, {"1.5", "'1.5'"}, {"1.5", "3 / 2"}},
+	{{"0.5", "0.5"}},
 }
 
 func genC20(t *rapid.T) *Bundle {
@@ -95,7 +132,17 @@ func genC20(t *rapid.T) *Bundle {
 		}
 		table = append(table, row)
 	}
-	keys := []string{"k1", "k2", "k3"}[:rapid.IntRange(1, 3).Draw(t, "nkeys")]
+	groups := rapid.SliceOfNDistinct(rapid.IntRange(0, len(c20KeyForms)-1), 1, 3, func(i int) int { return i }).Draw(t, "key_groups")
+	var keys []string
+	for _, gi := range groups {
+		keys = append(keys, c20KeyForms[gi][0].name)
+	}
+	// drawKey picks a register and one of the ways its key can be written
+	drawKey := func(label string) (string, string) {
+		g := c20KeyForms[rapid.SampledFrom(groups).Draw(t, label)]
+		f := rapid.SampledFrom(g).Draw(t, label+"_form")
+		return f.name, f.sql
+	}
 	init := map[string]any{}
 	if rapid.Bool().Draw(t, "preset") {
 		init[keys[0]] = rapid.SampledFrom([]any{"init", "1", float64(1), true}).Draw(t, "preset_value")
@@ -119,7 +166,7 @@ func genC20(t *rapid.T) *Bundle {
 		ni := rapid.IntRange(1, 7).Draw(t, "nitems")
 		usedCols := map[string]bool{}
 		for i := 0; i < ni; i++ {
-			kinds := []string{"set", "get", "set", "get", "col", "async", "spin", "getsub", "setv_async"}
+			kinds := []string{"set", "get", "set", "get", "col", "async", "spin", "getsub", "setv_async", "case_set", "if_get"}
 			if q.Dual {
 				kinds = []string{"set", "get"}
 			}
@@ -132,15 +179,24 @@ func genC20(t *rapid.T) *Bundle {
 				}
 				usedCols[it.Col] = true
 			case "get":
-				it.Key = rapid.SampledFrom(keys).Draw(t, "key")
+				it.Key, it.KeySQL = drawKey("key")
 				it.Alias = fmt.Sprintf("g%d", i)
+			case "case_set":
+				it.Key, it.KeySQL = drawKey("key")
+				it.Key2, it.Key2SQL = drawKey("key2")
+				it.CaseK = rapid.IntRange(0, 4).Draw(t, "case_k") * 10
+			case "if_get":
+				it.Key, it.KeySQL = drawKey("key")
+				it.Key2, it.Key2SQL = drawKey("key2")
+				it.CaseK = rapid.IntRange(0, 4).Draw(t, "case_k") * 10
+				it.Alias = fmt.Sprintf("i%d", i)
 			case "async", "spin":
 				site++
 				it.Site = site
 				it.Alias = fmt.Sprintf("y%d", i)
 				sites = append(sites, site)
 			case "getsub":
-				it.Key = rapid.SampledFrom(keys).Draw(t, "key")
+				it.Key, it.KeySQL = drawKey("key")
 				it.Alias = fmt.Sprintf("s%d", i)
 			case "setv_async":
 				// user code on an ASYNC goroutine writes another key ('zz') of the same variable context
@@ -150,7 +206,7 @@ func genC20(t *rapid.T) *Bundle {
 				sites = append(sites, site)
 				varCorunner = true
 			case "set":
-				it.Key = rapid.SampledFrom(keys).Draw(t, "key")
+				it.Key, it.KeySQL = drawKey("key")
 				vk := []string{"col", "num", "str", "null", "sum", "getvar", "bool", "str", "num"}
 				if q.Dual {
 					vk = []string{"num", "str", "null", "getvar", "bool"}
@@ -210,6 +266,18 @@ func genC20(t *rapid.T) *Bundle {
 					out[it.Alias] = stubValue("fx", it.Site, row["a"])
 				case "getsub":
 					out[it.Alias] = map[string]any{"g": model[it.Key]}
+				case "case_set":
+					if row["a"].(float64) >= float64(it.CaseK) {
+						model[it.Key] = row["a"]
+					} else {
+						model[it.Key2] = row["id"]
+					}
+				case "if_get":
+					if row["a"].(float64) >= float64(it.CaseK) {
+						out[it.Alias] = model[it.Key]
+					} else {
+						out[it.Alias] = model[it.Key2]
+					}
 				case "setv_async":
 					out[it.Alias] = nil
 				case "set":
